@@ -154,3 +154,10 @@ fn unicode_operator_chars_not_xid() {
     }
     assert!(unicode_ident::is_xid_continue('\u{00B7}'));
 }
+
+/// axiom_f_lt_asymmetric (contracts/quantity.vx): primitive f64 `<` never holds in both directions
+#[kani::proof]
+fn ieee_lt_asymmetric() {
+    let (x, y): (f64, f64) = (kani::any(), kani::any());
+    assert!(!(x < y && y < x));
+}
